@@ -57,6 +57,15 @@ func main() {
 	fset := token.NewFileSet()
 	imp := importer.ForCompiler(fset, "source", nil)
 	n := 0
+	// phase A: parse and type-check every package; collect the named struct types whose
+	// instances are reachable from package-level variables (through pointers, fields, slices,
+	// maps): methods that write fields of such a type mutate state shared by all calls
+	type pkgInfo struct {
+		files []*ast.File
+		info  *types.Info
+	}
+	all := map[string]*pkgInfo{}
+	sharedTypes := map[string]bool{} // "pkgpath.TypeName"
 	for _, dir := range dirs {
 		var files []*ast.File
 		for _, p := range pkgs[dir] {
@@ -69,12 +78,23 @@ func main() {
 		info := &types.Info{Types: map[ast.Expr]types.TypeAndValue{}, Uses: map[*ast.Ident]types.Object{}, Defs: map[*ast.Ident]types.Object{}}
 		conf := types.Config{Importer: imp, Error: func(err error) {}}
 		conf.Check(dir, fset, files, info) // type errors in unrelated code are tolerated; missing types fail below
-		written := writtenPackageVars(files, info)
-		for i, f := range files {
-			if !usesConcurrency(f) && !mentions(f, info, written) && !declares(f, info, written) {
+		all[dir] = &pkgInfo{files, info}
+		for _, obj := range info.Defs {
+			v, ok := obj.(*types.Var)
+			if !ok || v.Pkg() == nil || v.Parent() != v.Pkg().Scope() {
 				continue
 			}
-			rw := &rewriter{fset: fset, info: info, file: f, path: pkgs[dir][i], written: written}
+			collectNamedStructs(v.Type(), sharedTypes, 0)
+		}
+	}
+	for _, dir := range dirs {
+		files, info := all[dir].files, all[dir].info
+		written := writtenPackageVars(files, info)
+		for i, f := range files {
+			if !usesConcurrency(f) && !mentions(f, info, written) && !declares(f, info, written) && !writesSharedReceiver(f, info, sharedTypes) {
+				continue
+			}
+			rw := &rewriter{fset: fset, info: info, file: f, path: pkgs[dir][i], written: written, shared: sharedTypes}
 			rw.rewrite()
 			var buf bytes.Buffer
 			if err := format.Node(&buf, fset, f); err != nil {
@@ -237,7 +257,115 @@ func mentions(f *ast.File, info *types.Info, set map[types.Object]bool) bool {
 	return false
 }
 
+// collectNamedStructs records every named struct type reachable from t.
+func collectNamedStructs(t types.Type, out map[string]bool, depth int) {
+	if depth > 8 || t == nil {
+		return
+	}
+	switch x := t.(type) {
+	case *types.Named:
+		if x.Obj().Pkg() == nil {
+			return
+		}
+		key := x.Obj().Pkg().Name() + "." + x.Obj().Name() // package *name*: a package type-checked from its directory has a different path
+		if st, ok := x.Underlying().(*types.Struct); ok {
+			if out[key] {
+				return
+			}
+			if p := x.Obj().Pkg().Path(); p == "sync" || p == "sync/atomic" {
+				return
+			}
+			out[key] = true
+			for i := 0; i < st.NumFields(); i++ {
+				collectNamedStructs(st.Field(i).Type(), out, depth+1)
+			}
+			return
+		}
+		collectNamedStructs(x.Underlying(), out, depth+1)
+	case *types.Pointer:
+		collectNamedStructs(x.Elem(), out, depth+1)
+	case *types.Slice:
+		collectNamedStructs(x.Elem(), out, depth+1)
+	case *types.Array:
+		collectNamedStructs(x.Elem(), out, depth+1)
+	case *types.Map:
+		collectNamedStructs(x.Key(), out, depth+1)
+		collectNamedStructs(x.Elem(), out, depth+1)
+	case *types.Struct:
+		for i := 0; i < x.NumFields(); i++ {
+			collectNamedStructs(x.Field(i).Type(), out, depth+1)
+		}
+	}
+}
+
+// sharedReceiverWriter reports whether fd is a method of a shared type that assigns to a field
+// (or an element reached through a field) of its receiver.
+func sharedReceiverWriter(fd *ast.FuncDecl, info *types.Info, shared map[string]bool) bool {
+	if fd.Recv == nil || fd.Body == nil || len(fd.Recv.List) == 0 || len(fd.Recv.List[0].Names) == 0 {
+		return false
+	}
+	recv := info.Defs[fd.Recv.List[0].Names[0]]
+	if recv == nil {
+		return false
+	}
+	t := recv.Type()
+	if p, ok := t.(*types.Pointer); ok {
+		t = p.Elem()
+	}
+	nt, ok := t.(*types.Named)
+	if !ok || nt.Obj().Pkg() == nil || !shared[nt.Obj().Pkg().Name()+"."+nt.Obj().Name()] {
+		return false
+	}
+	rooted := func(e ast.Expr) bool {
+		sawSel := false
+		for {
+			switch x := e.(type) {
+			case *ast.SelectorExpr:
+				sawSel = true
+				e = x.X
+			case *ast.IndexExpr:
+				e = x.X
+			case *ast.ParenExpr:
+				e = x.X
+			case *ast.StarExpr:
+				e = x.X
+			case *ast.Ident:
+				return sawSel && info.Uses[x] == recv
+			default:
+				return false
+			}
+		}
+	}
+	found := false
+	ast.Inspect(fd.Body, func(n ast.Node) bool {
+		switch x := n.(type) {
+		case *ast.AssignStmt:
+			for _, l := range x.Lhs {
+				if rooted(l) {
+					found = true
+				}
+			}
+		case *ast.IncDecStmt:
+			if rooted(x.X) {
+				found = true
+			}
+		}
+		return !found
+	})
+	return found
+}
+
+func writesSharedReceiver(f *ast.File, info *types.Info, shared map[string]bool) bool {
+	for _, d := range f.Decls {
+		if fd, ok := d.(*ast.FuncDecl); ok && sharedReceiverWriter(fd, info, shared) {
+			return true
+		}
+	}
+	return false
+}
+
 type rewriter struct {
+	shared    map[string]bool
 	written   map[types.Object]bool
 	fset      *token.FileSet
 	info      *types.Info
@@ -299,7 +427,7 @@ func (r *rewriter) rewrite() {
 	for _, d := range f.Decls {
 		if fd, ok := d.(*ast.FuncDecl); ok && fd.Body != nil {
 			// a function that touches run-time-written package state is preemptible at every statement
-			r.stepAll = fileStepAll || (mentionsNode(fd.Body, r.info, r.written) && !(fd.Recv == nil && fd.Name.Name == "init"))
+			r.stepAll = fileStepAll || (mentionsNode(fd.Body, r.info, r.written) && !(fd.Recv == nil && fd.Name.Name == "init")) || sharedReceiverWriter(fd, r.info, r.shared)
 			r.block(fd.Body)
 			r.stepAll = fileStepAll
 		}
